@@ -346,7 +346,14 @@ def splice_module(modname, src, contracts, registry):
             check_ghost_only(c.name, text)
             text = '\n' + text + '\n'
             m = re.fullmatch(r'loop(\d+)\.(before|body_start|body_end|after)', anchor)
-            if anchor == 'fn_start':
+            mc = re.fullmatch(r'const:(\w+)', anchor)
+            if mc:
+                mk = '/*@const %s*/' % mc.group(1)
+                p0 = src.find(mk, bo, bc)
+                if p0 < 0:
+                    raise LostAnchor('%s: inner const %s not found' % (c.name, mc.group(1)))
+                add(src.index('{', p0) + 1, text)
+            elif anchor == 'fn_start':
                 add(bo + 1, text)
             elif anchor == 'fn_end':
                 add(bc, text)
